@@ -4,13 +4,15 @@ import (
 	"fmt"
 	"strings"
 
+	"golang.org/x/tools/go/ssa"
+
 	"verif/wscheck/internal/fold"
 )
 
 func init() {
 	register(&Property{
 		ID:        "C02",
-		Explain:   "FOLD with symbolic byte lanes. ws.Cipher is evaluated for every payload length 0..72 (all residues of the 16-byte word loop over several iterations, the 8-byte threshold, head and tail loops) x every stream offset 0..9 (all residues mod 4, offsets >= 4) with payload bytes p_i and key bytes k_j as symbolic lanes; 64-bit words are tracked as 8 byte lanes through the little-endian loads, the shift/or that builds the doubled key, the XOR and the stores, so the result is compared byte by byte with payload[i] XOR key[(offset+i) mod 4]; every index is in range. The remain table must equal [0,3,2,1]. The streaming wrappers and the frame helpers are folded with Cipher as an effect: CipherReader.Read ciphers exactly p[:n] at the running position and advances it by n; CipherWriter.Write ciphers a pooled copy (never p) at the running position, advances by what the destination accepted and returns the buffer to the pool; MaskFrame*/UnmaskFrame* set/clear Masked and Mask, cipher with that same key at offset 0, and the copying variants cipher a fresh copy. NOT decided: payload lengths above 72 (the loops are uniform in the length, but that is an argument, not a decision). The constructors NewCipherReader / NewCipherWriter wrap exactly the stream they are given with exactly the given key at position 0, whatever that stream is; the Mask* helpers are also folded on frames that already carry a key (the payload is ciphered once, with the new key).",
+		Explain:   "FOLD with symbolic byte lanes. ws.Cipher is evaluated for every payload length 0..72 (all residues of the 16-byte word loop over several iterations, the 8-byte threshold, head and tail loops) x every stream offset 0..9 (all residues mod 4, offsets >= 4) with payload bytes p_i and key bytes k_j as symbolic lanes; 64-bit words are tracked as 8 byte lanes through the little-endian loads, the shift/or that builds the doubled key, the XOR and the stores, so the result is compared byte by byte with payload[i] XOR key[(offset+i) mod 4]; every index is in range. The remain table must equal [0,3,2,1]. The streaming wrappers and the frame helpers are folded with Cipher as an effect: CipherReader.Read ciphers exactly p[:n] at the running position and advances it by n; CipherWriter.Write ciphers a pooled copy (never p) at the running position, advances by what the destination accepted and returns the buffer to the pool; MaskFrame*/UnmaskFrame* set/clear Masked and Mask, cipher with that same key at offset 0, and the copying variants cipher a fresh copy. NOT decided: payload lengths above 72 (the loops are uniform in the length, but that is an argument, not a decision). The constructors NewCipherReader / NewCipherWriter wrap exactly the stream they are given with exactly the given key at position 0, whatever that stream is; the Mask* helpers are also folded on frames that already carry a key (the payload is ciphered once, with the new key). cipher-call-sites: ws.Cipher is applied only in the five functions whose offset and key discipline a fold examines (a helper with a single caller inherits); a new entry point that ciphers - an io.WriterTo fast path, say - is a violation until a fold covers it.",
 		Technique: "static analysis: abstract interpretation over go/ssa with a symbolic byte-lane domain (bounded unrolling at concrete lengths, symbolic contents)",
 		Trusted:   []string{"go/ssa + go/types", "the checker's abstract evaluator and its lane algebra (XOR/OR/shift by whole bytes)", "encoding/binary.LittleEndian is little-endian (lane intrinsic)"},
 		Run:       runC02,
@@ -22,6 +24,7 @@ func runC02(c *Ctx) {
 	c02Cipher(c)
 	c02Streams(c)
 	c02Frames(c)
+	c02CallSites(c)
 }
 
 func c02Remain(c *Ctx) {
@@ -520,5 +523,55 @@ func c02Frames(c *Ctx) {
 			}
 		}
 		c.verdict(rule, rule+"/"+sp.name, c.P.FuncPos(f), uniq(problems), "mask fields and cipher key agree; copy/in-place as documented")
+	}
+}
+
+// cipherSites: who applies ws.Cipher, and which rule examines offset and key at that site.
+var cipherSites = map[string]string{
+	"ws.UnmaskFrameInPlace":          "C02.frame-helpers: key = Header.Mask, offset 0 over the whole payload",
+	"ws.MaskFrameInPlaceWith":        "C02.frame-helpers: key = the given mask, offset 0 over the whole payload",
+	"wsutil.(*CipherReader).Read":    "C02.stream-wrappers: exactly the bytes read, at the running position",
+	"wsutil.(*CipherWriter).Write":   "C02.stream-wrappers: a pooled copy of exactly the bytes written, at the running position",
+	"wsutil.(*Writer).flushFragment": "C06.writer-flushfragment-frame: the buffered payload of one frame with a fresh key, offset 0",
+}
+
+// c02CallSites is the who-may-call rule for ws.Cipher: a new site (an extra
+// entry point such as an io.WriterTo fast path, a helper shared by two callers)
+// applies the key at an offset no fold of this check has looked at.
+func c02CallSites(c *Ctx) {
+	const rule = "C02.cipher-call-sites"
+	c.R.Rule(rule, 5, "ws.Cipher is applied only at the sites whose offset and key discipline a fold examines")
+	target := c.fn(rule, ws, "Cipher")
+	if target == nil {
+		return
+	}
+	for _, fn := range c.P.AllModuleFuncs() {
+		for _, b := range fn.Blocks {
+			for _, in := range b.Instrs {
+				call, ok := in.(ssa.CallInstruction)
+				if !ok || call.Common().StaticCallee() != target {
+					continue
+				}
+				name := astFuncName(fn)
+				key := rule + "/" + name
+				pos := c.P.Pos(call.Pos())
+				why, found := "", false
+				for _, o := range c.ownerChain(name) {
+					if w, ok := cipherSites[o]; ok {
+						why, found = w, true
+						if o != name {
+							why += " (site moved into helper " + name + ", whose only caller is " + o + ")"
+						}
+						break
+					}
+				}
+				if found {
+					c.R.OK(rule, key, pos, why)
+				} else {
+					c.R.Fail(rule, key, pos, "ws.Cipher is applied in "+name+", a site none of the folds of this check examines: nothing establishes that the key is applied at the stream position of the bytes it is given")
+				}
+				c.R.Sites++
+			}
+		}
 	}
 }
